@@ -348,6 +348,72 @@ def op_to_meshtri_unused(m, rng):
     return None, {}
 
 
+def op_second_order(base, rng):
+    """restrict / remove_elements / remove_unused_nodes on the second-order mesh over `base`: every local node of every kept
+    cell keeps its coordinates, no node is left unused, the vertex map points at the old vertices"""
+    import skfem
+    from dataclasses import replace
+    name2 = {'MeshTri1': 'MeshTri2', 'MeshQuad1': 'MeshQuad2', 'MeshTet1': 'MeshTet2', 'MeshHex1': 'MeshHex2'}[type(base).__name__]
+    cls = getattr(skfem, name2)
+    m = cls.from_mesh(base)
+    p = m.p.copy()
+    nvx = base.p.shape[1]
+    p[:, nvx:] += 0.0625 * rng.integers(-1, 2, size=p[:, nvx:].shape)       # displaced mid nodes (dyadic: exact)
+    m = cls(p, m.t)
+    sub, bnd = rand_tags(m, rng, oriented=False)
+    m = m.with_subdomains(sub).with_boundaries(bnd)
+    nt = m.t.shape[1]
+    el = rng.choice(nt, size=int(rng.integers(1, nt + 1)), replace=False).astype(np.int32)
+    if rng.random() < 0.5:
+        el = np.sort(el)
+    M, ix = m.restrict(el, return_mapping=True)
+    what = 'restrict:' + name2
+    ed, ED = m.dofs.element_dofs, M.dofs.element_dofs
+    need(type(M) is cls and M.t.shape == (m.t.shape[0], len(el)), what + ':shape', f'{type(M).__name__} {M.t.shape}')
+    need(ED.shape == (ed.shape[0], len(el)), what + ':nodes-per-cell', '')
+    for i, k0 in enumerate(el):
+        need(np.array_equal(M.p[:, ED[:, i]], m.p[:, ed[:, k0]]), what + ':node-geometry',
+             lambda: f'the local nodes of new cell {i} are not those of old cell {int(k0)}')
+    need(len(np.unique(ED)) == M.p.shape[1], what + ':unused-node', f'{M.p.shape[1]} nodes, {len(np.unique(ED))} in use')
+    nv = M.nvertices
+    need(len(ix) == nv and np.array_equal(M.p[:, :nv], m.p[:, ix]), what + ':vertex-map', 'p_new[:, j] != p_old[:, ix[j]] for the vertices')
+    for nm, sd in (m.subdomains or {}).items():
+        want = cell_points(m, [c for c in np.asarray(sd).tolist() if c in set(el.tolist())])
+        need(cell_points(M, M.subdomains[nm]) == want, what + ':subdomain', nm)
+    keptf = set(np.unique(m.t2f[:, el]).tolist())
+    for nm, b in (m.boundaries or {}).items():
+        need(facet_points(M, M.boundaries[nm]) == facet_points(m, [f for f in np.asarray(b).tolist() if f in keptf]),
+             what + ':boundary', nm)
+    # remove_unused_nodes: unused points appended / interleaved must go, every node of every cell stays
+    extra = 90.0 + rng.integers(0, 9, size=(m.p.shape[0], int(rng.integers(1, 4))))
+    mu = replace(m, doflocs=np.hstack((m.p, extra)))
+    U = mu.remove_unused_nodes()
+    what = 'remove_unused_nodes:' + name2
+    UD = U.dofs.element_dofs
+    need(U.p.shape[1] == m.p.shape[1] and UD.shape == ed.shape, what + ':node-count', f'{U.p.shape[1]} nodes, expected {m.p.shape[1]}')
+    need(np.array_equal(U.p[:, UD], m.p[:, ed]), what + ':node-geometry', 'the local nodes of the cells moved')
+    return None, {'elements': el.tolist()}
+
+
+def op_extrude_unused(m, rng):
+    """MeshTri1 * MeshLine1 on a mesh with unused trailing points"""
+    from dataclasses import replace
+    from skfem import MeshLine1
+    extra = 80.0 + rng.integers(0, 9, size=(2, int(rng.integers(1, 3))))
+    mu = replace(m, doflocs=np.hstack((m.p, extra)))
+    z = np.cumsum(rng.integers(1, 4, size=int(rng.integers(2, 4)))).astype(float)
+    M = mu * MeshLine1(np.array([z]))
+    what = 'extrude-unused'
+    nt = m.t.shape[1]
+    need(M.t.shape[1] == nt * (len(z) - 1) and M.t.max() < M.p.shape[1], what + ':counts', '')
+    for l in range(len(z) - 1):
+        for k in range(nt):
+            tri = cols(m.p, m.t[:, k])
+            want = tuple(v + (F(z[l]),) for v in tri) + tuple(v + (F(z[l + 1]),) for v in tri)
+            need(cols(M.p, M.t[:, k + l * nt]) == want, what + ':prism-geometry', f'prism {k}+{l}*nt')
+    return None, {'z': z.tolist()}
+
+
 def with_unused(m, rng):
     """the same cells over a vertex array with extra unused points at random positions"""
     nvx = m.p.shape[1]
